@@ -10,6 +10,7 @@ harness.  Names are compared after case folding; `fold` is a parameter (Python: 
 
 The abstract specification (`specProcs`, `specContext`) at the end of the file speaks about *times* only.
 -/
+import HedVerif.Model.Tok
 namespace HedVerif.Events
 
 abbrev Str := List Char
@@ -20,6 +21,7 @@ inductive Item where
   | offset (name : Str)               -- `(Def/name, Offset)`
   | duration (len : Int) (c : Nat)    -- `(Duration/len, (…))`, length in default units (×8), text id `c`
   | plain (c : Nat)                   -- anything else, text id `c`
+  | inset (name : Str) (c : Nat)      -- `(Def/name, Inset, …)`: not looked for by the manager, stays in the row
 deriving Repr, DecidableEq, Inhabited
 
 /-- A row of the events file: onset, its undelayed items, its top-level Delay groups (delay, item). -/
@@ -38,6 +40,8 @@ deriving Repr, Inhabited, DecidableEq
 inductive Reject where
   | unordered         -- HedFileError("OnsetsNotOrdered")
   | unmatchedOffset   -- `onset_dict.pop(anchor)` raises KeyError
+  | noDef             -- `group.find_def_tags(...)[0]` raises IndexError (Onset/Offset group without Def)
+  | badValue          -- `start_time + item.value_as_default_unit()` with no usable Duration value: TypeError
 deriving Repr, DecidableEq, Inhabited
 
 /-- `not onsets.is_monotonic_increasing` (pandas: non-decreasing, adjacent comparison) -/
@@ -94,6 +98,7 @@ def isDuration : Item → Bool
 def plainOf : List Item → List Nat
   | [] => []
   | .plain c :: rest => c :: plainOf rest
+  | .inset _ c :: rest => c :: plainOf rest
   | _ :: rest => plainOf rest
 
 /-- One temporal group met by the scan, with the row index at which it is processed. -/
@@ -160,6 +165,7 @@ def step (fold : Str → Str) (ts : List Int) (st : State) (a : Act) : Except Re
   | .duration len c =>
     .ok ⟨st.procs ++ [⟨st.procs.length, a.idx, some (bisectLeft ts (a.time + len)), [], c⟩], st.opn⟩
   | .plain _ => .ok st
+  | .inset _ _ => .ok st
 
 def run (fold : Str → Str) (ts : List Int) : State → List Act → Except Reject State
   | st, [] => .ok st
@@ -252,5 +258,255 @@ def specStarts (ps : List SProc) (τ : Int) : List Nat :=
 
 /-- the history as the specification sees it -/
 def timed (acts : List Act) : List (Int × Item) := acts.map fun a => (a.time, a.item)
+
+/-! ## Text layer: annotation trees, classification of top-level groups, process text, unfolding
+
+The rows of the file are HED strings.  They are parsed with the C02 model (`Tree.construct`), every
+top-level child of every row gets an id (its position in `table`), and `classify` turns it into the
+`Item` the scan works on; the opaque ids of the first part of this file are these positions, so
+`contentOf tbl id` is the text of a process and `plainNode tbl id` the text of a remainder item.
+Tags are short-form text; only the reserved names below are recognised and printed in canonical case
+(`str(tag)` is the short tag).  Values of Duration/Delay tags come from `vals` (default units × 8; C11). -/
+
+inductive TNode where
+  | tag (text : Str)
+  | group (kids : List TNode)
+deriving Repr, Inhabited
+
+mutual
+def ofNode (s : Str) : HedVerif.Node → TNode
+  | .tag a b => .tag (Tree.slice s a b)
+  | .group _ _ kids => .group (ofNodes s kids)
+def ofNodes (s : Str) : List HedVerif.Node → List TNode
+  | [] => []
+  | n :: ns => ofNode s n :: ofNodes s ns
+end
+
+/-- `HedString(text, schema)` -/
+def parse (s : Str) : List TNode := ofNodes s (Tree.construct s)
+
+def lower (s : Str) : Str := s.map Char.toLower
+def baseOf (t : Str) : Str := t.takeWhile (· != '/')
+def slashRest (t : Str) : Str := t.dropWhile (· != '/')
+def extOf (t : Str) : Str := (slashRest t).drop 1
+
+def kDef : Str := ['d','e','f']
+def kDefExpand : Str := ['d','e','f','-','e','x','p','a','n','d']
+def kOnset : Str := ['o','n','s','e','t']
+def kOffset : Str := ['o','f','f','s','e','t']
+def kInset : Str := ['i','n','s','e','t']
+def kDuration : Str := ['d','u','r','a','t','i','o','n']
+def kDelay : Str := ['d','e','l','a','y']
+def kEventContext : Str := ['E','v','e','n','t','-','c','o','n','t','e','x','t']
+def kNone : Str := ['N','o','n','e']
+
+/-- canonical spelling of the reserved short base tags -/
+def reserved : List Str :=
+  [['D','e','f'], ['D','e','f','-','e','x','p','a','n','d'], ['O','n','s','e','t'], ['O','f','f','s','e','t'],
+   ['I','n','s','e','t'], ['D','u','r','a','t','i','o','n'], ['D','e','l','a','y'], kEventContext]
+
+/-- `tag.short_base_tag.casefold() == name` (`name` in lower case) -/
+def isB (name : Str) (t : Str) : Bool := lower (baseOf t) == name
+
+/-- `str(tag)`: the short tag; the base of a reserved tag comes out in the schema's case -/
+def canonTag (t : Str) : Str :=
+  ((reserved.find? fun r => lower r == lower (baseOf t)).getD (baseOf t)) ++ slashRest t
+
+def directTags : List TNode → List Str
+  | [] => []
+  | .tag t :: r => t :: directTags r
+  | .group _ :: r => directTags r
+
+def isGroup : TNode → Bool
+  | .group _ => true
+  | .tag _ => false
+
+/-- `find_def_tags(recursive=False, include_groups=0)`: Def children, and Def-expand tags of child groups -/
+def defExts : List TNode → List Str
+  | [] => []
+  | .tag t :: r => if isB kDef t then extOf t :: defExts r else defExts r
+  | .group ks :: r => ((directTags ks).filter (isB kDefExpand)).map extOf ++ defExts r
+
+/-- What the manager makes of one top-level child (`find_top_level_tags` with Onset/Offset anchors first,
+then Duration anchors on what is left; Inset groups are not looked for). A group with Onset *and* Duration is
+taken by the first search: it is an Onset process and its Duration plays no role for its end. -/
+def classify (vals : Str → Option Int) (id : Nat) : TNode → Except Reject Item
+  | .tag _ => .ok (.plain id)
+  | .group ks =>
+    match (directTags ks).find? (fun t => isB kOnset t || isB kOffset t) with
+    | some t =>
+      match (defExts ks).head? with
+      | none => .error .noDef
+      | some ext => if isB kOnset t then .ok (.onset ext id) else .ok (.offset ext)
+    | none =>
+      match ((directTags ks).filter (isB kDuration)).getLast? with
+      | some t =>
+        match vals t with
+        | some len => .ok (.duration len id)
+        | none => .error .badValue
+      | none =>
+        if (directTags ks).any (isB kInset) then .ok (.inset ((defExts ks).head?.getD []) id)
+        else .ok (.plain id)
+
+/-- `split_delay_tags`: a top-level group with a Delay tag that has a usable value moves to its own row -/
+def delayOf (vals : Str → Option Int) : TNode → Option Int
+  | .group ks =>
+    match (directTags ks).find? (isB kDelay) with
+    | some t => vals t
+    | none => none
+  | .tag _ => none
+
+structure TextRow where
+  time : Int
+  nodes : List TNode
+deriving Repr, Inhabited
+
+def rowItems (vals : Str → Option Int) : Nat → List TNode → Except Reject (List Item × List (Int × Item))
+  | _, [] => .ok ([], [])
+  | id, n :: ns =>
+    match classify vals id n, rowItems vals (id + 1) ns with
+    | .ok it, .ok (a, b) =>
+      match delayOf vals n with
+      | some d => .ok (a, (d, it) :: b)
+      | none => .ok (it :: a, b)
+    | .error e, _ => .error e
+    | _, .error e => .error e
+
+def toRows (vals : Str → Option Int) : Nat → List TextRow → Except Reject (List Row)
+  | _, [] => .ok []
+  | id, r :: rs =>
+    match rowItems vals id r.nodes, toRows vals (id + r.nodes.length) rs with
+    | .ok (a, b), .ok rest => .ok (⟨r.time, a, b⟩ :: rest)
+    | .error e, _ => .error e
+    | _, .error e => .error e
+
+/-- the top-level children of all rows; ids are positions in this list -/
+def table (rows : List TextRow) : List TNode := rows.flatMap (·.nodes)
+
+/-- the constructor on text rows: order check first, then everything else -/
+def buildText (fold : Str → Str) (vals : Str → Option Int) (rows : List TextRow) : Except Reject Built :=
+  if nonDecreasing (rows.map (·.time)) then
+    match toRows vals 0 rows with
+    | .ok rs => build fold rs
+    | .error e => .error e
+  else .error .unordered
+
+/-! ### `TemporalEvent._split_group` and printing -/
+
+def notAnchor : TNode → Bool
+  | .tag t => !(isB kOnset t || isB kDuration t)
+  | .group _ => true
+
+def lastDef (ks : List TNode) : Option Str := ((directTags ks).filter (isB kDef)).getLast?
+
+/-- `event.contents`: the group without its Onset and Duration tags if it has an inner group, else the
+short tag of its (last) Def child, else `None` (printed "None") -/
+def splitGroup (ks : List TNode) : TNode :=
+  if ks.any isGroup then .group (ks.filter notAnchor)
+  else match lastDef ks with
+    | some t => .tag (canonTag t)
+    | none => .tag kNone
+
+def contentOf (tbl : List TNode) (id : Nat) : TNode :=
+  match tbl[id]? with
+  | some (.group ks) => splitGroup ks
+  | some n => n
+  | none => .tag kNone
+
+def plainNode (tbl : List TNode) (id : Nat) : TNode := (tbl[id]?).getD (.tag [])
+
+mutual
+/-- `str(group)` / `str(tag)` -/
+def render : TNode → Str
+  | .tag t => canonTag t
+  | .group ks => '(' :: (renderList ks ++ [')'])
+def renderList : List TNode → Str
+  | [] => []
+  | [n] => render n
+  | n :: m :: ns => render n ++ (',' :: renderList (m :: ns))
+end
+
+/-- the nodes of `contexts[i]`, `base[i]`, `hed_strings[i]` -/
+def ctxNodes (tbl : List TNode) (b : Built) (i : Nat) : List TNode := (contextAt b.procs i).map (contentOf tbl)
+def baseNodes (tbl : List TNode) (b : Built) (i : Nat) : List TNode := (baseAt b.procs i).map (contentOf tbl)
+def remNodes (tbl : List TNode) (b : Built) (i : Nat) : List TNode := ((b.rem[i]?).getD []).map (plainNode tbl)
+
+/-! ### `unfold_context` / `_filter_hed` / `HedTagManager.get_hed_objs` -/
+
+/-- `split_base_tags(…, remove_group=False)`: matching tags go, groups emptied by that are pruned -/
+def filtTags (p : Str → Bool) : List TNode → List TNode
+  | [] => []
+  | .tag t :: r => if p t then filtTags p r else .tag t :: filtTags p r
+  | .group ks :: r =>
+    match filtTags p ks with
+    | [] => filtTags p r
+    | k :: ks' => .group (k :: ks') :: filtTags p r
+
+/-- below the top level with `remove_group=True`: the group that directly holds a matching tag goes -/
+def filtGroups (p : Str → Bool) : List TNode → List TNode
+  | [] => []
+  | .tag t :: r => .tag t :: filtGroups p r
+  | .group ks :: r =>
+    if (directTags ks).any p then filtGroups p r
+    else match filtGroups p ks with
+      | [] => filtGroups p r
+      | k :: ks' => .group (k :: ks') :: filtGroups p r
+
+def keepTopTag (p : Str → Bool) : TNode → Bool
+  | .tag t => !p t
+  | .group _ => true
+
+/-- `remove_group=True` on a whole string: a matching top-level tag goes by itself -/
+def filtTop (p : Str → Bool) (nodes : List TNode) : List TNode := filtGroups p (nodes.filter (keepTopTag p))
+
+def typeP (types : List Str) (t : Str) : Bool := types.any fun ty => lower (baseOf t) == lower ty
+
+/-- `find_wildcard_tags(["def/<name>"])`: the short tag, case-folded, *starts with* `def/<name>` -/
+def defP (names : List Str) (t : Str) : Bool :=
+  isB kDef t && names.any fun n => (lower n).isPrefixOf (lower (extOf t))
+
+def filterHed (types names : List Str) (removeGroup : Bool) (nodes : List TNode) : List TNode :=
+  if removeGroup then filtTop (defP names) (filtTop (typeP types) nodes)
+  else filtTags (defP names) (filtTags (typeP types) nodes)
+
+def allTags : List TNode → List Str
+  | [] => []
+  | .tag t :: r => t :: allTags r
+  | .group ks :: r => allTags ks ++ allTags r
+
+/-- `get_type_defs`: names (lower case) of the definitions whose contents hold a tag of one of the types -/
+def typeDefNames (defs : List (Str × List TNode)) (types : List Str) : List Str :=
+  types.flatMap fun ty =>
+    (defs.filter fun d => (allTags d.2).any fun t => lower (baseOf t) == lower ty).map fun d => lower d.1
+
+def substHash (v : Str) : Str → Str
+  | [] => []
+  | c :: cs => if c == '#' then v ++ substHash v cs else c :: substHash v cs
+
+def substNodes (v : Str) : List TNode → List TNode
+  | [] => []
+  | .tag t :: r => .tag (substHash v t) :: substNodes v r
+  | .group ks :: r => .group (substNodes v ks) :: substNodes v r
+
+/-- `def_tag.expandable.get_first_group()` -/
+def expandDef (defs : List (Str × List TNode)) (ext : Str) : Option TNode :=
+  (defs.find? fun d => lower d.1 == lower (baseOf ext)).map fun d => .group (substNodes (extOf ext) d.2)
+
+/-- `replace_defs=True` (an unknown definition would raise in Python; the tag is kept here) -/
+def replaceDefs (defs : List (Str × List TNode)) : List TNode → List TNode
+  | [] => []
+  | .tag t :: r =>
+    (if isB kDef t then (expandDef defs (extOf t)).getD (.tag t) else .tag t) :: replaceDefs defs r
+  | .group ks :: r => .group (replaceDefs defs ks) :: replaceDefs defs r
+
+/-- one entry of `HedTagManager(em, remove_types).get_hed_objs(include_context, replace_defs)`; `[]` is `None` -/
+def objNodes (defs : List (Str × List TNode)) (types : List Str) (includeCtx replace : Bool)
+    (tbl : List TNode) (b : Built) (i : Nat) : List TNode :=
+  let names := typeDefNames defs types
+  let h := filterHed types names false (remNodes tbl b i)
+  let bs := filterHed types names true (baseNodes tbl b i)
+  let c := filterHed types names true (ctxNodes tbl b i)
+  let all := h ++ bs ++ (if includeCtx && !c.isEmpty then [.group [.tag kEventContext, .group c]] else [])
+  if replace then replaceDefs defs all else all
 
 end HedVerif.Events
